@@ -26,6 +26,10 @@ def plan(tier, seed):
     # ambient configuration, compared under a third: jit and eager must agree, whatever is active around them
     amb = [None, 'plain', 'onestep', 'precond']
     seqs += [{'jit_ambient': [c, f, k]} for c in amb for f in amb for k in amb]
+    # an operator size never used before in the process, applied FIRST under a trace (jit / filter_jit / the generic as_matrix),
+    # then eagerly, then in another jitted function (every case has sizes of its own)
+    seqs += [{'first_use_traced': [21 + 3 * i + j, 4 + i % 3], 'method': m, 'first': f} for i, (m, f) in enumerate(
+        (m, f) for m in ('dense', 'direct', 'fft', 'overlap_save') for f in ('jit', 'filter_jit', 'generic_as_matrix')) for j in (0,)]
     return [
         {'name': 'shared_jit', 'target': TARGET, 'x64': False, 'cases': seqs, 'chunk': 10},
         {'name': 'x32', 'target': TARGET, 'x64': False, 'cases': U.cases(tier, ('f32',), modulus=8)},
@@ -265,7 +269,51 @@ def jit_ambient_case(case):
     return probs
 
 
+def first_use_traced_case(case):
+    import equinox
+    import jax
+    import jax.numpy as jnp
+    import numpy as np
+
+    from furax._base.core import AbstractLinearOperator
+    from furax.operators.toeplitz import SymmetricBandToeplitzOperator
+    from mc import probe as P
+
+    n, K = case['first_use_traced']
+    f32 = jnp.float32
+    band = np.array([4.0, -1.0, 0.5, 2.0, -0.25, 1.0][:K], np.float32)
+    ref = np.zeros((n, n))
+    for i in range(n):
+        for j in range(n):
+            if abs(i - j) < K:
+                ref[i, j] = band[abs(i - j)]
+    x = np.arange(n, dtype=np.float32) % 5 - 2
+    want = ref @ x
+    op = SymmetricBandToeplitzOperator(jnp.asarray(band), jax.ShapeDtypeStruct((n,), f32), method=case['method'])
+    probs = []
+    steps = {'jit': lambda: jax.jit(lambda v: op.mv(v))(jnp.asarray(x)),
+             'filter_jit': lambda: equinox.filter_jit(lambda o, v: o.mv(v))(op, jnp.asarray(x)),
+             'generic_as_matrix': lambda: AbstractLinearOperator.as_matrix(op) @ jnp.asarray(x),
+             'eager': lambda: op.mv(jnp.asarray(x)),
+             'as_matrix': lambda: op.as_matrix() @ jnp.asarray(x),
+             'second jit': lambda: jax.jit(lambda v: op.mv(v) * 1.0)(jnp.asarray(x)),
+             'flatten/unflatten copy': lambda: jax.tree.unflatten(*reversed(jax.tree.flatten(op))).mv(jnp.asarray(x))}
+    order = [case['first']] + [k for k in steps if k != case['first']]
+    for k in order:
+        try:
+            y = np.asarray(P.lib(k, steps[k]))
+        except P.LibError as e:
+            probs.append(('first-use-under-a-trace', f'size {n}, {K} bands, method {case["method"]}: after a first use through {case["first"]}, {k} fails: {e}'))
+            break
+        if y.shape != want.shape or not np.allclose(y, want, rtol=1e-4, atol=1e-4):
+            probs.append(('first-use-under-a-trace', f'size {n}, method {case["method"]}: {k} gives {y[:5]} instead of {want[:5]} (first use was {case["first"]})'))
+            break
+    return probs
+
+
 def shared_jit_case(case):
+    if 'first_use_traced' in case:
+        return first_use_traced_case(case)
     if 'jit_ambient' in case:
         return jit_ambient_case(case)
     if 'shared_jit_inv' in case:
